@@ -25,7 +25,7 @@ def sequences(names, L):
 
 def worker(ns, items, res, opts):
     prop = opts['prop']
-    pool = coll.pool_messages()
+    pool = coll.pool_nasty() if opts.get('nasty') else coll.pool_messages()
     ro_text = coll.base_ro()
     tmp = tempfile.mkdtemp(prefix='mosmc-c09-')
     store = coll.FakeS3()
@@ -49,6 +49,22 @@ def worker(ns, items, res, opts):
                     for k, en in problems:
                         explore.add_simple_finding(res, prop, f'COLLECTION:{seq[k]}:mutated-before-raise:{en}',
                                                    f'sequence {list(seq)} (strict={strict}): message #{k} {seq[k]} raised {en} but changed the running order',
+                                                   sequence=list(seq), ro=ro_text, messages=texts)
+                    continue
+                if opts.get('c12'):
+                    # C12: a non-strict collection merge always runs to the end; strict raises only MosMergeError
+                    got = run_collection(ns, 'strings', ro_text, texts, strict, tmp, store)
+                    res.transitions += len(texts)
+                    res.nontrivial += 1
+                    res.extra['collection_merges'] += 1
+                    res.by_outcome['collection:' + str(got['exc']).split(':')[0]] += 1
+                    if got['exc'] and 'BUILTIN' in str(got['exc']):
+                        explore.add_simple_finding(res, prop, f"COLLECTION:strict={strict}:{got['exc']}",
+                                                   f'sequence {list(seq)} strict={strict}: collection merge escaped with {got["exc"]}',
+                                                   sequence=list(seq), ro=ro_text, messages=texts)
+                    elif not strict and got['exc']:
+                        explore.add_simple_finding(res, prop, f"COLLECTION:non-strict-did-not-finish:{got['exc']}",
+                                                   f'sequence {list(seq)}: non-strict merge raised {got["exc"]}',
                                                    sequence=list(seq), ro=ro_text, messages=texts)
                     continue
                 for ctor in ('strings', 'files', 's3'):
